@@ -21,9 +21,9 @@ class PyRaise(Exception):
 
 
 class Obligation:
-    __slots__ = ("name", "status", "model", "time", "backend", "info", "path")
+    __slots__ = ("name", "status", "model", "time", "backend", "info", "path", "concrete")
 
-    def __init__(self, name, status, model=None, t=0.0, backend="z3", info=None, path=None):
+    def __init__(self, name, status, model=None, t=0.0, backend="z3", info=None, path=None, concrete=False):
         self.name, self.status, self.model, self.time, self.backend, self.info, self.path = (
             name,
             status,
@@ -33,6 +33,7 @@ class Obligation:
             info,
             path,
         )
+        self.concrete = concrete  # the goal was a python bool: a concrete evaluation of the real code
 
     def as_dict(self):
         return {
@@ -238,7 +239,7 @@ class Ctx:
             # checked against the light path condition, and "unknown" counted as feasible)
             r = self._check()
             if r == z3.sat:
-                self.ex.obligations.append(Obligation(full, "failed", model=self.solver.model(), backend="z3", info=info, path=list(self.trace)))
+                self.ex.obligations.append(Obligation(full, "failed", model=self.solver.model(), backend="z3", info=info, path=list(self.trace), concrete=True))
                 return False
             if r == z3.unsat:
                 self.ex.obligations.append(Obligation(full, "proved", backend="z3", info=f"infeasible path; {info or ''}"))
